@@ -248,19 +248,6 @@ Proof.
   - fold row in J. rewrite J in I. contradiction.
 Qed.
 
-Lemma regional_maximum_ties_Some image mask st result :
-  regional_maximum_ties image mask st = Some result ->
-  result = tab (length image) (length (hd [] image)) (reg_max_b image mask st).
-Proof.
-  intros E.
-  assert (P : zlen st / 2 <= Z.of_nat (length image) /\ zlen (hd [] st) / 2 <= Z.of_nat (length (hd [] image))).
-  { unfold regional_maximum_ties, shape2, zlen in *. cbv beta iota zeta in E.
-    destruct ((Z.of_nat (length image) <? Z.of_nat (length st) / 2)
-              || (Z.of_nat (length (hd [] image)) <? Z.of_nat (length (hd [] st)) / 2)) eqn:C; [discriminate|].
-    lia. }
-  destruct P as [P0 P1]. rewrite (regional_maximum_ties_eq image mask st P0 P1) in E. congruence.
-Qed.
-
 Section NoTiesModel.
   Variable label : list (list bool) -> list (list Z) * Z.
   Variable ro_distance : list (list bool) -> list (list Z).
